@@ -484,6 +484,10 @@ pub fn mutation_sets(b: &Base, bi: usize, thorough: bool) -> Vec<Vec<M>> {
         }
     }
     for nrep in [10usize, 1000, 300_000] {
+        // the 300000-offset index costs seconds per input: every fourth base in the quick tier
+        if nrep == 300_000 && !thorough && bi % 4 != 0 {
+            continue;
+        }
         ops.push(M::OffsetsRepeat(nrep));
     }
     for g in [1usize, 3, 4, 5, 100] {
